@@ -720,8 +720,56 @@ func interestingValue(v string) bool {
 	return strings.ContainsAny(v, `"\()`) || strings.EqualFold(v, "or") || strings.EqualFold(v, "and")
 }
 
+// The table hypotheses of c14_parse_print_parse_partial (env_ok), evaluated on the real functions and reported in the
+// evidence: lower_ascii on all of ASCII, schemes_ok on every registered URN scheme, lowerK on every code point of the
+// BMP that the generated lexer takes as a one-character PROPERTY (the exceptions are instances of the listed finding).
+func reportEnvOK(res *hx.Result) {
+	bad := 0
+	for c := rune(0); c < 128; c++ {
+		want := c
+		if c >= 'A' && c <= 'Z' {
+			want = c + 32
+		}
+		if unicode.ToLower(c) != want {
+			bad++
+		}
+	}
+	res.Dist(fmt.Sprintf("env_ok:lower_ascii:violations=%d", bad))
+	bad = 0
+	for _, sc := range urns.Schemes {
+		k := sc.Prefix
+		if k == "" || strings.ToLower(k) != k || !keyLexesAsWritten("urn", k) {
+			bad++
+		}
+	}
+	res.Dist(fmt.Sprintf("env_ok:schemes_ok:%d-schemes:violations=%d", len(urns.Schemes), bad))
+	isKey := func(c rune) bool {
+		ts := lexReal(string(c) + "_")
+		return len(ts) == 1 && ts[0].Kind == "PROPERTY"
+	}
+	var viol []string
+	n := 0
+	for c := rune(0x21); c < 0x10000; c++ {
+		if c >= 0xd800 && c <= 0xdfff {
+			continue
+		}
+		if l := unicode.ToLower(c); l != c && isKey(c) {
+			n++
+			if !isKey(l) || unicode.ToLower(l) != l {
+				if len(viol) < 6 {
+					viol = append(viol, fmt.Sprintf("U+%04X->U+%04X", c, l))
+				}
+				bad++
+			}
+		}
+	}
+	res.Dist(fmt.Sprintf("env_ok:lowerK+idem:%d-case-changing-key-characters:violations=%d", n, bad))
+	res.Notes = append(res.Notes, fmt.Sprintf("env_ok on the real tables: lowerK/lower_idem fail for %d of %d case-changing key characters of the BMP (first: %s) — the listed finding reparse:property-key-lowercases-outside-grammar-letters", bad, n, strings.Join(viol, " ")))
+}
+
 func runCqlStreams(o *hx.Opts, res *hx.Result, r *hx.Rand) {
 	e := &emitter{o: o, res: res}
+	reportEnvOK(res)
 
 	// ---- corpus: inputs of earlier findings first -------------------------------------------------------
 	corpus := []string{`name = "a\\" AND name = "b"`, `name = "a\x5c" AND name = "b"`, `"name = x OR id:5"`, `"A b:c"`, `X:y`, `a.b:c`, `fields.Ꭰ = 1`, `Ꭰ = 1`,
